@@ -254,9 +254,7 @@ theorem sel_sorted {fx : Fixes} {s : St} {es : List Src.Entry} {ids : List Looku
 /-- **From the invariant to the theorem.** -/
 theorem correct_of_topInv (fx : Fixes) (p : Program) (U : List (List Glyph)) (dls : List Sys) (s : St)
     (ids : List LookupId) (hinv : TopInv fx U dls (Src.entries p) s ids)
-    (hents : ∀ e ∈ Src.entries p,
-      ((headKind e.lookup.rules).isMapGsub = true ∨ headKind e.lookup.rules = .spos) ∧
-      (e.lookup.rules.flatMap Wf.targets).Nodup)
+    (hents : ∀ e ∈ Src.entries p, GsubRunOk e.lookup.rules ∨ GposRunOk e.lookup.rules)
     (hgdef : (p.gdef.map (·.1)).Nodup)
     (hU1 : ∀ c ∈ U, c.Nodup) (hU2 : ∀ c ∈ U, ∀ c' ∈ U, c ≠ c' → ∀ g ∈ c, g ∉ c')
     (script lang : Tag) (hreg : (script, lang) ∈ dls) (feats : List Tag) (alt : Nat) (str : List Glyph) :
@@ -316,17 +314,16 @@ theorem correct_of_topInv (fx : Fixes) (p : Program) (U : List (List Glyph)) (dl
     rw [hc.2] at hid
     obtain ⟨_, ls, hcomp, hpl⟩ := hinv.ents.of_mem_zip e id hz
     have hmem : e ∈ Src.entries p := (List.of_mem_zip hz).1
-    obtain ⟨hkinds, hnd⟩ := hents e hmem
-    have hmap : (headKind e.lookup.rules).isMapGsub = true := by
-      rcases hkinds with h | h
+    have hok : GsubRunOk e.lookup.rules := by
+      rcases hents e hmem with h | h
       · exact h
       · have := entry_isPos e hcomp.1 hcomp.2.1
-        rw [h, hc.2] at this
+        rw [h.1, hc.2] at this
         simp [Kind.isPos] at this
     simp only [mkId, Bool.false_eq_true, ↓reduceIte] at hid
     rw [hid] at hcomp hpl
     have := run_applyGsub_correct fx p.gdef s.attachIds s.filterIds e.lookup.flag e.lookup.rules id.idx ls
-      ⟨buildTable s.gsub false s.features, buildTable s.gpos true s.features, buildGdef p s⟩ hcomp hpl rfl hmap hnd hgdef hatt
+      ⟨buildTable s.gsub false s.features, buildTable s.gpos true s.features, buildGdef p s⟩ hcomp hpl rfl hok hgdef hatt
       alt (Src.envOf (Src.entries p)) e.lookup.name
     exact this
   · intro x hx
@@ -337,14 +334,16 @@ theorem correct_of_topInv (fx : Fixes) (p : Program) (U : List (List Glyph)) (dl
     rw [hc.2] at hid
     obtain ⟨_, ls, hcomp, hpl⟩ := hinv.ents.of_mem_zip e id hz
     have hmem : e ∈ Src.entries p := (List.of_mem_zip hz).1
-    obtain ⟨hkinds, hnd⟩ := hents e hmem
-    have hk : headKind e.lookup.rules = .spos := by
-      rcases hkinds with h | h
+    have hok : GposRunOk e.lookup.rules := by
+      rcases hents e hmem with h | h
       · have := entry_isPos e hcomp.1 hcomp.2.1
         rw [hc.2] at this
-        generalize headKind e.lookup.rules = k at h this ⊢
-        cases k <;> simp [Kind.isMapGsub, Kind.isPos] at h this ⊢
+        rcases h with ⟨hm, _⟩ | ⟨hl, _⟩
+        · generalize headKind e.lookup.rules = k at hm this
+          cases k <;> simp [Kind.isMapGsub, Kind.isPos] at hm this
+        · rw [hl] at this; simp [Kind.isPos] at this
       · exact h
+    obtain ⟨hk, hnd⟩ := hok
     simp only [mkId, ↓reduceIte] at hid
     rw [hid] at hcomp hpl
     have := run_applyGpos_correct fx p.gdef s.attachIds s.filterIds e.lookup.flag e.lookup.rules id.idx ls
